@@ -298,7 +298,7 @@ def r13c(model, ctx):
 
 def r13d(model, ctx):
     R = "R-13d"
-    f = model.func(f"{FIFO}::AsyncFIFO.__init__")
+    f = model.func_view(f"{FIFO}::AsyncFIFO.__init__")
     t = unparse(f)
     ok = "depth_bits = ceil_log2(depth)" in t and "depth = 1 << depth_bits" in t and "self._ctr_bits = depth_bits + 1" in t
     ctx.check(ok, R, "AsyncFIFO.__init__", "depth rounded up to 2**depth_bits; counters one bit wider than the address",
@@ -395,22 +395,19 @@ def r13f(model, ctx):
               f"AsyncFIFO: a pointer/reset crossing with fewer than 2 synchroniser stages (rst {k_rst}, produce {k_ptr}, consume "
               f"{k_back}) exposes a metastable pointer to the full/empty comparison", f"{FIFO}:{fn.lineno}")
     # the flops of the reset synchroniser power up asserted; those of the pointer synchronisers at the pointer's init (0)
-    fa = model.func_expanded(f"{CDC}::AsyncFFSynchronizer.elaborate", depth=3)
-    fl = [n for n in ast.walk(fa) if isinstance(n, ast.ListComp) and isinstance(n.elt, ast.Call) and dotted(n.elt.func) == "Signal"]
-    need(len(fl) == 1, "AsyncFFSynchronizer.elaborate: flop list not found")
-    kw = {k.arg: unparse(k.value) for k in fl[0].elt.keywords}
-    ok = kw.get("init") == "1" and unparse(fl[0].generators[0].iter) == "range(self._stages)"
+    from .c17 import find_chain
+    fa = model.func_view(f"{CDC}::AsyncFFSynchronizer.elaborate", depth=3)
+    ca = find_chain(fa)
+    need(ca is not None, "AsyncFFSynchronizer.elaborate: register chain not recognised")
+    kw = {k.arg: unparse(k.value) for k in ca.ctor.keywords}
+    ok = kw.get("init") == "1" and ca.count == "range(self._stages)"
     ctx.check(ok, R, "AsyncFFSynchronizer:flops", "self._stages flops, all powering up asserted",
               "AsyncFFSynchronizer must build self._stages flops that power up at 1 (output asserted until released synchronously)",
               f"{CDC}:{fa.lineno}")
-    ff = model.func_expanded(f"{CDC}::FFSynchronizer.elaborate", depth=3)
-    fl = [n for n in ast.walk(ff) if isinstance(n, ast.ListComp) and isinstance(n.elt, ast.Call) and dotted(n.elt.func) == "Signal"]
-    need(len(fl) == 1, "FFSynchronizer.elaborate: flop list not found")
-    loops = [n for n in ff.body if isinstance(n, ast.For)]
-    ok = unparse(fl[0].generators[0].iter) == "range(self._stages)" and len(loops) == 1 and \
-        unparse(loops[0].iter) == "zip((self.i, *flops), flops)" and unparse(loops[0].target) in ("i, o", "(i, o)") and \
-        [unparse(b) for b in loops[0].body] == ["m.d[self._o_domain] += o.eq(i)"] and \
-        any(unparse(b) == "m.d.comb += self.o.eq(flops[-1])" for b in ff.body)
+    ff = model.func_view(f"{CDC}::FFSynchronizer.elaborate", depth=3)
+    cf = find_chain(ff)
+    need(cf is not None, "FFSynchronizer.elaborate: register chain not recognised")
+    ok = cf.count == "range(self._stages)" and cf.src == "self.i" and cf.domain == "self._o_domain" and cf.out == ("LAST", "'comb'")
     ctx.check(ok, R, "FFSynchronizer:chain", "self._stages flops chained i -> flops[0] -> .. -> flops[-1] -> o in o_domain",
               "FFSynchronizer must chain self._stages flops in the output domain and drive o from the last one", f"{CDC}:{ff.lineno}")
 
